@@ -141,10 +141,8 @@ def tlc(module, cfg, workers=None, timeout=600, simulate=None, depth=None, extra
     """Run TLC on spec/<module>.tla with spec/<cfg>.  Returns dict(ok, states, distinct, out,
     error, violated, wall_s).  Never raises on a property violation; raises Infra on a crash,
     parse error or timeout."""
-    global _tlc_n
-    _tlc_n += 1
     d = _specdir()
-    meta = os.path.join(scratch(), "tlcmeta%d" % _tlc_n)
+    meta = tempfile.mkdtemp(prefix="tlcmeta", dir=scratch())
     java = ["java", "-XX:+UseParallelGC", "-Xss64m"]
     if heap:
         java.append("-Xmx" + heap)
